@@ -53,6 +53,11 @@ KNOWN = {
 SCENARIOS["mixin-with-other-directives-on-field"] = FRAGS + ('query M($inc: Boolean = true) { me @mixin(from: "pyvc_mixins", import: "OpFieldMixin") '
                                                              '@include(if: $inc) { id name @skip(if: false) } }')
 SCENARIOS["string-literal-backslash"] = FRAGS + 'query S { search(text: "C:\\\\temp \\\\ end") { __typename } }'
+SCENARIOS["union-fragment-spread-directly-and-inside-another-used-fragment"] = FRAGS + (
+    'fragment ResultParts on Actor { __typename ... on User { name } ... on Bot { model } }\n'
+    'fragment Holder on User { id friends { ...PersonBits } }\n'
+    'fragment Found on Query { search(text: "x") { ...ResultParts } }\n'
+    'query Q { actor { ...ResultParts } ...Found me { ...Holder ...PersonBits } node(id: "1") { ...OnNode ... on User { ...Holder } } }')
 SCENARIOS["mixin-on-fragment-definition"] = FRAGS + 'fragment WithMixin on User @mixin(from: "pyvc_mixins", import: "FragDefMixin") { id }\nquery M { me { ...WithMixin } }'
 
 
